@@ -301,3 +301,39 @@ func H_C12_remove_all() {
 		vHNSWSearchChecks(idx, m, 2, []int{4})
 	}
 }
+
+func init() { vHarnesses["H_C12_interleave"] = H_C12_interleave }
+
+// interleaved histories: each of 5 steps adds the next vector or removes a live one
+// (chains of soft-deleted vertices between the entry point and the live ones arise)
+func H_C12_interleave() {
+	idx, err := NewHNSWIndex(1, L2Squared, vHM, 8, 8)
+	vAssert(err == nil, "constructor")
+	m := vNewRef(L2Squared)
+	added := 0
+	resident := 0
+	for step := 0; step < 5; step++ {
+		live := m.liveCount()
+		if added < 2 || live == 0 || (added < 4 && vChoose(vName("op", step), 2) == 0) {
+			if added >= 4 {
+				break
+			}
+			vHNSWAdd(idx, m, vIDs[added], vVec(vName("v", added), 1), 0)
+			added++
+			resident++
+			continue
+		}
+		// remove the t-th live vertex
+		t := vChoose(vName("target", step), live)
+		for i := range m.entries {
+			if m.entries[i].live {
+				if t == 0 {
+					vRemoveBoth(idx, m, m.entries[i].id)
+					break
+				}
+				t--
+			}
+		}
+	}
+	vHNSWSearchChecks(idx, m, resident, []int{4})
+}
